@@ -42,6 +42,17 @@ CLAIMED["C18"] = dict(
    note="Trusted: Coq kernel; hand model Model/Parse.v + Ctx.v tied by the depth correspondence suite (0 mismatches required); "
         "harness generators. Partial: theorem covers the List family; cost bound is a known finding, measured with a counting leaf type.",
    technique="Coq proof by induction over input trees on the executable parse model + model/implementation correspondence", design="§8 C18")
+CLAIMED["C01"] = dict(
+   text="Machine-checked proof (Coq): theorem C01_conform — for the whole parse calculus (builtin converters, Rule.parse with the "
+        "three args parsers / validators / contains, the four logical combinators with staged unions, nested data-class "
+        "construction), every options record that does not waive the guarantee, every declared type, input and error state: a "
+        "returned value conforms (source class, elements/keys/values/tuple positions recursively, strict checking constraints). "
+        "Proved by one lemma per construct and induction on the fuel; leaf lemma C01_builtin_targets for all converters. "
+        "Declarations with value-transforming constraints are outside the statement (refutation proved, known finding).",
+   note="Trusted: Coq kernel; Base/ primitives; the translator for validators; the hand model Model/Parse.v, Conv.v tied by the "
+        "parse correspondence suite (5000+ cases per run, 0 mismatches required) and an independent conformance oracle on the "
+        "implementation's outputs. Field-level content of data classes and function parameters are handled under C05/C08.",
+   technique="Coq proof by induction over the parse calculus + model/implementation correspondence", design="§8 C01")
 NOT_YET = {}
 for i in range(1, 21):
     pid = "C%02d" % i
